@@ -71,3 +71,39 @@ pub fn diag_brief(d: &Diagnostic) -> String {
 pub fn diags_brief(v: &[Diagnostic]) -> Vec<String> {
     v.iter().map(diag_brief).collect()
 }
+
+/// canonical text of one diagnostic (all fields)
+pub fn diag_key(d: &Diagnostic) -> String {
+    serde_json::to_string(d).unwrap_or_else(|_| format!("{d:?}"))
+}
+
+pub fn same_exact<ID: Eq + std::hash::Hash + Clone + std::fmt::Debug>(a: &ParseFileResult<ID>, b: &ParseFileResult<ID>) -> bool {
+    a.ast == b.ast && a.diagnostics == b.diagnostics
+}
+
+/// equal trees and equal diagnostics as multisets (their order is C11's matter)
+pub fn same_multiset<ID: Eq + std::hash::Hash + Clone + std::fmt::Debug>(a: &ParseFileResult<ID>, b: &ParseFileResult<ID>) -> bool {
+    if a.ast != b.ast || a.diagnostics.len() != b.diagnostics.len() {
+        return false;
+    }
+    let mut x: Vec<String> = a.diagnostics.iter().map(diag_key).collect();
+    let mut y: Vec<String> = b.diagnostics.iter().map(diag_key).collect();
+    x.sort();
+    y.sort();
+    x == y
+}
+
+/// digest of a whole result map, order-sensitive inside each file, independent of map iteration order
+pub fn digest_results<ID: Eq + std::hash::Hash + Clone + std::fmt::Debug + Ord>(res: &HashMap<ID, ParseFileResult<ID>>) -> Vec<(String, u64)> {
+    let mut ids: Vec<&ID> = res.keys().collect();
+    ids.sort();
+    ids.iter()
+        .map(|id| {
+            let r = &res[*id];
+            // serde_json::Value maps are sorted, so annotation parameter order does not matter
+            let tree = r.ast.as_ref().map(|a| serde_json::to_value(a).map(|v| v.to_string()).unwrap_or_default()).unwrap_or_else(|| "<no tree>".into());
+            let diags: Vec<String> = r.diagnostics.iter().map(diag_key).collect();
+            (format!("{id:?}"), crate::prng::hash_str(&format!("{tree}\u{1}{}", diags.join("\u{2}"))))
+        })
+        .collect()
+}
